@@ -512,7 +512,7 @@ Proof.
 Qed.
 
 Lemma call_w_result cfg w ep :
-  options_valid ep = true -> permitted w ep = true -> w_hop_status w <> 200 ->
+  options_valid ep = true -> permitted w ep = true -> redirect_status_ok w = true ->
   let o := call_wc cfg w ep in
   match spec_result_w w ep with
   | XData l => o_err o = None /\ o_data o = Some l
@@ -521,23 +521,23 @@ Lemma call_w_result cfg w ep :
 Proof.
   intros Hv Hp Hhs. cbv zeta.
   destruct (call_w_decompose cfg w ep Hv) as [_ [_ [_ [_ Hr]]]]. specialize (Hr Hp).
-  rewrite client_do_cases in Hr. unfold spec_result_w.
+  rewrite client_do_cases in Hr. unfold spec_result_w. unfold redirect_status_ok in Hhs.
   assert (Hplain : forall r,
     match spec_result ep r with
     | XData l => o_err (call_c cfg NoLimiter ep r) = None /\ o_data (call_c cfg NoLimiter ep r) = Some l
     | XErr c => class_of (o_err (call_c cfg NoLimiter ep r)) = c /\ o_data (call_c cfg NoLimiter ep r) = None
     end) by (intros r; apply (call_result cfg NoLimiter ep r Hv); discriminate).
   destruct (w_ctx w) eqn:Ec.
-  - destruct (w_hops w) as [|h hops].
+  - destruct (w_hops w) as [|h hops] eqn:Eh.
     + cbn [snd] in Hr. destruct Hr as [He Hd]. rewrite He, Hd. apply Hplain.
-    + destruct (w_follow w).
+    + destruct (w_follow w) eqn:Ef.
       * destruct (Z.of_nat (List.length (h :: hops)) <=? 9); cbn [snd] in Hr.
         -- destruct Hr as [He Hd]. rewrite He, Hd. apply Hplain.
         -- destruct Hr as [He Hd]. rewrite He, Hd. split; reflexivity.
       * cbn [snd] in Hr. destruct Hr as [He Hd]. rewrite He, Hd.
         specialize (Hplain {| r_status := w_hop_status w; r_body := BMalformed |}).
         unfold spec_result in Hplain. cbn [r_status] in Hplain.
-        destruct (Z.eqb_spec (w_hop_status w) 200) as [E|E]; [contradiction|].
+        cbn [orb] in Hhs. destruct (Z.eqb_spec (w_hop_status w) 200) as [E|E]; [discriminate Hhs|].
         exact Hplain.
   - unfold permitted in Hp. rewrite Hv, Ec in Hp. destruct (w_lim w); cbn in Hp; discriminate Hp.
   - cbn [snd] in Hr. destruct Hr as [He Hd]. rewrite He, Hd. split; reflexivity.
@@ -703,7 +703,7 @@ Lemma i_world_trace cfg w ep :
 Proof. intros Hb Hv. to_closed. exact (proj1 (proj2 (proj2 (call_w_decompose cfg w ep Hv)))). Qed.
 
 Lemma i_world_result cfg w ep :
-  base_wf cfg = true -> options_valid ep = true -> permitted w ep = true -> w_hop_status w <> 200 ->
+  base_wf cfg = true -> options_valid ep = true -> permitted w ep = true -> redirect_status_ok w = true ->
   let o := call_w cfg w ep in
   match spec_result_w w ep with
   | XData l => o_err o = None /\ o_data o = Some l
